@@ -167,6 +167,19 @@ impl Stats {
 
 pub type Scenario = fn(&Cfg, u64, &mut Stats);
 
+/// "checked" (debug assertions + overflow checks on, the default) or "plain"
+/// (both off): which build of the simulator and the library this process is.
+pub fn build_profile() -> String {
+    std::env::var("VERIF_PROFILE").unwrap_or_else(|_| "checked".to_string())
+}
+fn profile_suffix() -> &'static str {
+    if build_profile() == "plain" {
+        "-plain"
+    } else {
+        ""
+    }
+}
+
 pub struct BatchResult {
     pub stats: Stats,
     pub wall_s: f64,
@@ -291,11 +304,12 @@ pub fn write_replay(
 ) -> String {
     let dir = format!("{}/replays", cfg.verif_dir);
     let _ = std::fs::create_dir_all(&dir);
-    let path = format!("{}/{}-{}-{}.json", dir, cfg.prop, cfg.seed, found.idx);
+    let path = format!("{}/{}-{}-{}{}.json", dir, cfg.prop, cfg.seed, found.idx, profile_suffix());
     let v = json!({
         "property": cfg.prop,
         "oracle": min_violation.oracle,
         "engine": "A",
+        "build_profile": build_profile(),
         "kind": minimised.kind(),
         "seed": cfg.seed,
         "run": found.idx,
@@ -499,11 +513,12 @@ fn conclude_history(cfg: &Cfg, f: &Found) -> i32 {
     let observed = history_reproduces(cfg, oracle, &cur).unwrap_or_else(|| f.violation.observed.clone());
     let dir = format!("{}/replays", cfg.verif_dir);
     let _ = std::fs::create_dir_all(&dir);
-    let path = format!("{}/{}-{}-{}.json", dir, cfg.prop, cfg.seed, f.idx);
+    let path = format!("{}/{}-{}-{}{}.json", dir, cfg.prop, cfg.seed, f.idx, profile_suffix());
     let v = json!({
         "property": cfg.prop,
         "oracle": oracle,
         "engine": "A",
+        "build_profile": build_profile(),
         "kind": "history",
         "seed": cfg.seed,
         "tier": cfg.tier.name(),
@@ -638,7 +653,8 @@ pub fn write_evidence(
     });
     let dir = format!("{}/evidence", cfg.verif_dir);
     let _ = std::fs::create_dir_all(&dir);
-    let path = format!("{}/{}.json", dir, cfg.prop);
+    let name = std::env::var("VERIF_EVIDENCE_NAME").unwrap_or_else(|_| cfg.prop.clone());
+    let path = format!("{}/{}.json", dir, name);
     if let Err(e) = std::fs::write(&path, serde_json::to_string_pretty(&ev).unwrap()) {
         harness_error(format!("cannot write evidence {}: {}", path, e));
     }
